@@ -58,7 +58,10 @@ func GenOps(r *hx.Rng, n int, closeOK bool) []Op {
 	labels := func() Labels {
 		l := Labels{T: -1}
 		if r.Chance(1, 4) {
-			l.U = r.Range(1, 3)
+			l.U = r.Range(1, 3) // 1 = empty value
+		}
+		if r.Chance(1, 4) {
+			l.E = r.Range(1, 3) // a label outside the containerd.io/snapshot namespace
 		}
 		if r.Chance(1, 40) {
 			l.R = true // a caller passing the reserved remote label itself
@@ -103,6 +106,9 @@ func GenOps(r *hx.Rng, n int, closeOK bool) []Op {
 			if r.Chance(1, 40) {
 				o.L.T = o.Key
 			}
+			if r.Chance(1, 20) {
+				o.L.T = BadEmpty + r.Intn(2) // a target ref that cannot be committed: "" or oversized
+			}
 			t.nextID++
 			if o.MOK {
 				if _, ok := t.kind[o.L.T]; !ok {
@@ -132,6 +138,9 @@ func GenOps(r *hx.Rng, n int, closeOK bool) []Op {
 				k = r.Intn(nnames)
 			}
 			o = Op{Op: "commit", Key: k, Name: t.fresh(r), L: labels()}
+			if r.Chance(1, 25) {
+				o.Name = BadEmpty + r.Intn(2)
+			}
 			if t.kind[k] == 1 {
 				if _, ex := t.kind[o.Name]; !ex {
 					delete(t.kind, k)
